@@ -226,7 +226,7 @@ func Mint(ca ssh.Signer, s CertSpec) *ssh.Certificate {
 // "yss*" decode as YSSHCA KeyIDs; the others must not.
 var YssKeyIDs = []string{"yss-regular", "yss-touch", "yss-cached", "yss-ff-hw", "yss-ff-agent", "yss-nonce", "yss-headless", "yss-default",
 	"yss-nullprins", "yss-emptyprins", "yss-extrafields"}
-var NonYssKeyIDs = []string{"near-missing", "near-ver2", "near-ver0", "near-inconsistent", "near-case", "near-type", "free-text", "free-empty", "free-json-array", "free-json-null", "free-json-obj"}
+var NonYssKeyIDs = []string{"near-missing", "near-ver2", "near-ver0", "near-inconsistent", "near-case", "near-type", "near-trailing", "free-text", "free-empty", "free-json-array", "free-json-null", "free-json-obj"}
 
 // KeyIDText renders a KeyID text of the given class. tid is the transaction id.
 func KeyIDText(class string, tid string, r *mrand.Rand) string {
@@ -296,6 +296,11 @@ func KeyIDText(class string, tid string, r *mrand.Rand) string {
 	case "near-type":
 		m = base(false, false, false, false, 1, 1)
 		m["isHWKey"] = "false"
+	case "near-trailing":
+		// a complete, valid KeyID object followed by more text: not a JSON document, hence not a YSSHCA KeyID
+		m = base(false, r.Intn(2) == 0, false, false, 1+r.Intn(3), 1)
+		b, _ := json.Marshal(m)
+		return string(b) + []string{"}", " trailing", string(b), ",", "\n{}", "]"}[r.Intn(6)]
 	case "free-text":
 		return []string{"user@host", "my laptop key", "{not json", "ssh-ed25519 AAAA", "üser-中"}[r.Intn(5)]
 	case "free-empty":
